@@ -45,6 +45,7 @@ show("F7b", read({"ns/A.1.0.dsdl": "S.1.0[2] x\n@sealed\n", "ns/S.1.0.dsdl": SVC
 show("F7c", read({"ns/A.1.0.dsdl": "@print S.1.0._extent_\n@sealed\n", "ns/S.1.0.dsdl": SVC}))  # InternalError
 show("F11", read({"ns/A.1.0.dsdl": "uint8 x\nuint8 y\n\nB.1.0 b\n@sealed\n", "ns/B.1.0.dsdl": "uint8 z\n"}))  # line 4 (of A) with B's path; None after the fix
 show("F12a", read({"ns/A.1.0.dsdl": "uint8 a\n# doc a\n   \n# other\nuint8 b\n@sealed\n"}))  # see docs below
+show("F13", read({"ns/A.1.0.dsdl": "".join("uint8 f%d\n" % i for i in range(250)) + "@sealed\n"}))  # RecursionError (known finding, not repaired)
 show("F9", read({"ns/A.1.0.dsdl": "@sealed\n", "ns/1_0.B.+1. 0.dsdl": "@sealed\n"}, allow_unregulated_fixed_port_id=True))
 
 d = Path(tempfile.mkdtemp(prefix="pydsdl-repro-"))
